@@ -3,7 +3,7 @@
    function that is GENERATED from the Python source on every run (Gen/Alias.v, harness/translate_alias.py).
    Only statements here; proofs are `exact <lemma>` or instantiate the generic theorem at the generated program. *)
 From Coq Require Import List String Bool Arith Lia.
-From BCT Require Import Model.AliasLang Proofs.AliasLang Gen.Alias.
+From BCT Require Import Model.AliasLang Proofs.AliasLang Gen.Alias Proofs.AliasBct.
 Import ListNotations.
 Open Scope string_scope.
 
@@ -89,6 +89,71 @@ Proof.
   intros val fd p ps Hin Hc Hps s0 o Hfl Hex.
   exact (copy_false_contract val all_functions summaries_verified fd p ps s0 o Hin Hc Hps Hfl Hex).
 Qed.
+
+(* fresh-result half of the copy=True contract at the generated program: a public function whose verified summary says
+   fret_t = false returns a location allocated during the call (np.shares_memory(result, argument) is impossible) *)
+Theorem C13_bct_results_fresh : forall (val : Type) fd,
+  In fd all_functions -> mem (fname fd) flagged_names = false -> fpublic fd = true -> fret_t fd = false ->
+  forall (s0 s : state val) l,
+    entry_state val fd s0 -> flag s0 = true ->
+    exec val all_functions (fbody fd) s0 (Returned s (Some l)) -> next s0 <= l.
+Proof. exact bct_results_fresh. Qed.
+
+(* every function of the generated program, either flag value: only the arrays of the parameters its verified summary
+   lists may change *)
+Theorem C13_bct_frame : forall (val : Type) fd,
+  In fd all_functions ->
+  forall (s0 : state val) o,
+    entry_state val fd s0 -> exec val all_functions (fbody fd) s0 o ->
+    forall l, l < next s0 ->
+      (forall p, In p (fmut fd (flag s0)) -> env s0 p <> Some l) ->
+      heap (st_of o) l = heap s0 l.
+Proof. exact bct_frame. Qed.
+
+(* the copy utilities under copy=False (all eight, also autofix / logtransform which have no in-place contract): at most
+   the array of the FIRST parameter is written, and nothing at all when the summary lists no written parameter
+   (logtransform; Gen/Alias.v copyutil_table records (contract, writes) per utility) *)
+Theorem C13_bct_copy_false_frame : forall (val : Type) fd p ps,
+  In fd all_functions -> fcopyutil fd = true -> fparams fd = p :: ps ->
+  forall (s0 : state val) o,
+    entry_state val fd s0 -> flag s0 = false -> exec val all_functions (fbody fd) s0 o ->
+    forall l, l < next s0 -> (env s0 p <> Some l \/ fmut_f fd = []) -> heap (st_of o) l = heap s0 l.
+Proof. exact bct_copy_false_frame. Qed.
+
+(* C13_bct_public_functions_pure counts a parameter documented int/float as an ARRAY when the body writes through it by
+   name (itr *= k: a 0-d array passed there is modified — those functions are flagged).  Under the weaker reading that
+   such parameters hold Python scalars (entry_state of all_functions_ds: same bodies, Gen/Alias.v same_bodies_ds) every
+   public function except the flagged_names_ds is pure *)
+Theorem C13_bct_public_functions_pure_docscalar : forall (val : Type) fd,
+  In fd all_functions_ds -> mem (fname fd) flagged_names_ds = false -> fpublic fd = true ->
+  forall (s0 : state val) o,
+    entry_state val fd s0 -> (flag s0 = true \/ fcopyutil fd = false) ->
+    exec val all_functions_ds (fbody fd) s0 o ->
+    forall l, l < next s0 -> heap (st_of o) l = heap s0 l.
+Proof. exact bct_public_functions_pure_docscalar. Qed.
+
+(* copy=False of autofix / logtransform does NOT operate on the caller's array (pinned shapes of Proofs/AliasBct.v, compared
+   with the generated bodies by the harness): autofix writes the argument and may return another array, logtransform
+   leaves the argument alone and returns a fresh array *)
+Theorem C13_autofix_copy_false_refuted : exists o,
+  exec nat [autofix_fd] autofix_shape (st_w false) o /\
+  match o with Returned s r => r = Some 2 /\ env (st_w false) "W" = Some 0 /\ heap s 0 = 1 /\ heap (st_w false) 0 = 7 | _ => False end.
+Proof. exact autofix_copy_false_refuted. Qed.
+
+Theorem C13_logtransform_copy_false_refuted : exists o,
+  exec nat [logtransform_fd] logtransform_shape (st_w false) o /\
+  match o with Returned s r => r = Some 1 /\ env (st_w false) "W" = Some 0 /\ heap s 0 = heap (st_w false) 0 | _ => False end.
+Proof. exact logtransform_copy_false_refuted. Qed.
+
+(* non-vacuity of the new instances (name-independent, so that a legitimate edit of one function cannot break it): the
+   program contains unflagged public functions whose result is fresh, copy utilities with and without a verified
+   in-place contract, and the two programs list the same functions *)
+Example C13_bct_instances_nonvacuous :
+  existsb (fun fd => fpublic fd && negb (mem (fname fd) flagged_names) && negb (fret_t fd)) all_functions = true /\
+  existsb (fun fd => fcopyutil fd && fcontract fd) all_functions = true /\
+  existsb (fun fd => fpublic fd && negb (mem (fname fd) flagged_names_ds)) all_functions_ds = true /\
+  map fname all_functions_ds = map fname all_functions.
+Proof. vm_compute. auto. Qed.
 
 (* ------------------------------------------------------------------ non-vacuity and refutation *)
 (* the shape of threshold_absolute: if copy: W = W.copy(); fill_diagonal(W,0); W[W<thr]=0; return W *)
@@ -177,3 +242,9 @@ Print Assumptions C13_copy_true_contract.
 Print Assumptions C13_bct_public_functions_pure.
 Print Assumptions C13_bct_copy_false_contract.
 Print Assumptions C13_rejected_refuted.
+Print Assumptions C13_bct_results_fresh.
+Print Assumptions C13_bct_frame.
+Print Assumptions C13_bct_copy_false_frame.
+Print Assumptions C13_bct_public_functions_pure_docscalar.
+Print Assumptions C13_autofix_copy_false_refuted.
+Print Assumptions C13_logtransform_copy_false_refuted.
